@@ -34,9 +34,9 @@ res["suite_with_change"] = out.strip().splitlines()[-1]
 res["suite_passes_with_change"] = rc == 0
 rc1, out1 = run_demo()
 res["demo_with_change_exit"] = rc1
-run(f"git -C {wt} stash -q -- repid")
+run(f"git -C {wt} diff -- repid > {wt}/_cur.diff && git -C {wt} apply -R {wt}/_cur.diff")
 rc0, out0 = run_demo()
-run(f"git -C {wt} stash pop -q")
+run(f"git -C {wt} apply {wt}/_cur.diff")
 res["demo_without_change_exit"] = rc0
 res["demo_output_with_change"] = out1[-600:]
 checks = {}
